@@ -224,6 +224,11 @@ fn parse_case(o: &mut Out, b: &[u8], fam: &str) -> String {
     o.direct(raw.try_parse() == f, "c16: RawExtraField::try_parse == fields of ExtraField::try_parse", hex(b), dump(&raw.try_parse().0), dump(&f.0));
     o.direct(f.tx_pubkey() == first_key(&f.0) && f.tx_additional_pubkeys() == first_add(&f.0),
         "c16: accessors = first matching sub-field", hex(b), format!("{:?} {:?}", f.tx_pubkey(), f.tx_additional_pubkeys().map(|v| v.len())), "first match".into());
+    // "Ok only if re-parsing needs no resynchronisation": an Ok result accounts for every input byte - the sub-fields
+    // re-encode to exactly the input (up to the merge-mining size byte, which the decoder reads and ignores)
+    if isok { let mut re = Vec::new(); for sf in &f.0 { re.extend(serialize(sf)); }
+        let has_mm = f.0.iter().any(|sf| matches!(sf, SubField::MergeMining(..)));
+        o.direct(re.len() == b.len() && (has_mm || re[..] == b[..]), "c16: try_parse(e) = Ok(fs) => fs re-encode to e (no byte skipped or invented)", format!("c16_parse {}", hex(b)), hex(&re), hex(b)); }
     if b.len() <= 4096 { prefix_check(o, b); }
     let nt = !b.is_empty() && (!f.0.is_empty() || b.len() >= 2);
     if nt { o.nontrivial.insert(format!("c16_parse {}", hex(b))); }
